@@ -280,6 +280,10 @@ def _gen_fields(step):
         lit_idents = [x.text for x in ct[lit[0]:lit[1]] if x.kind == "ident"]
         lets = top_level_lets(ct)
         accs = set()
+        allnames = [nme for names, _i, _m in lets for nme in names]
+        for nme in sorted(set(allnames)):
+            if allnames.count(nme) > 1:
+                bad.append("binding `%s` is declared %d times (shadowing: a parsed value is discarded) in %s" % (nme, allnames.count(nme), where))
         for names, i, is_mut in lets:
             for nme in names:
                 if nme == "ident":
